@@ -222,6 +222,32 @@ Theorem C17_tar_roundtrip : forall c f dir D t,
 Proof. exact tar_roundtrip. Qed.
 Print Assumptions C17_tar_roundtrip.
 
+(** Entries within ONE call: an entry whose own resolved name is outside the
+    destination is refused at whatever position of the archive it stands —
+    after a directory entry that resolves to the destination itself ("./",
+    which ZipDir emits first; "/"; "a/../"), after any run of benign entries —
+    unless an earlier entry already stopped the extraction; nothing is
+    written for it or after it. *)
+Theorem C17_unzip_refuses_outside_anywhere : forall c dir e rest pre f,
+  in_dir dir (filepath_join [dir; e_name e]) = false ->
+  unzip_entries c f dir (pre ++ e :: rest) =
+  match fst (unzip_entries c f dir pre) with
+  | XOk => (XRefused, snd (unzip_entries c f dir pre))
+  | _ => unzip_entries c f dir pre
+  end.
+Proof. exact unzip_refuses_outside_anywhere. Qed.
+Print Assumptions C17_unzip_refuses_outside_anywhere.
+
+Theorem C17_untar_refuses_outside_anywhere : forall c dir e rest pre f,
+  in_dir dir (filepath_join [dir; e_name e]) = false ->
+  untar c f dir (pre ++ e :: rest) =
+  match fst (untar c f dir pre) with
+  | XOk => (XRefused, snd (untar c f dir pre))
+  | _ => untar c f dir pre
+  end.
+Proof. exact untar_refuses_outside_anywhere. Qed.
+Print Assumptions C17_untar_refuses_outside_anywhere.
+
 (** Not proved: the same with a directory prefix [S] handed to TarZipFile
     (the tree arrives under [D ++ S]; [D] and the directories of [S] are
     created with the root entry's mode).  [C17_tar_roundtrip] is the case
@@ -262,6 +288,11 @@ Print Assumptions C17_source_as_modelled.
     hands on its own destination parameter unchanged, and [writeFirstFileAs]
     reads no entry name.  (Decided on the call skeletons regenerated from
     dock/cont.go and dock/write_tar.go.) *)
+Theorem C17_containment_decided_per_entry :
+  gen_check_cond_unzip = "!inDir(dir, name)"%string /\ gen_check_cond_untar = "!inDir(destDir, dest)"%string.
+Proof. exact arch_check_unconditional. Qed.
+Print Assumptions C17_containment_decided_per_entry.
+
 Theorem C17_callers_are_the_modelled_extractors :
   (only_writer "writeTarToDir" gen_calls_copyout = true /\ gen_dest_arg_copyout = gen_dest_param_copyout) /\
   (only_writer "writeFirstFileAs" gen_calls_copyoutfile = true /\ gen_dest_arg_copyoutfile = gen_dest_param_copyoutfile) /\
@@ -309,6 +340,25 @@ Example C17_nonvacuous_sequence :
   resolve (cwd ex_cfg) (clean (bs "/sb/dest")) = Some D /\
   lookup (do_calls ex_cfg (bs "/sb/dest") D ex_fs xs) [bs "sb"; bs "evil.txt"] = Some (NFile 384 (bs "pre-existing")) /\
   lookup (do_calls ex_cfg (bs "/sb/dest") D ex_fs xs) [bs "sb"; bs "dest"; bs "ok.txt"] = Some (NFile 420 (bs "fine")).
+Proof. vm_compute. repeat split. Qed.
+
+(** What deciding per entry is relied upon for.  With a memo of directories
+    "already checked" ([unzip_entries_memo], NOT the deployed code) the root
+    entry "./" records the destination's PARENT as checked, and the next
+    entry, one level above the destination, is written outside — while the
+    same entry alone is refused, and the deployed loop refuses it in both
+    positions. *)
+Example C17_memo_polluted_by_root_entry_refuted :
+  let c := ex_cfg in
+  let f := ex_fs in
+  let root := {| e_name := bs "./"; e_kind := KDir; e_perm := 493; e_data := [] |} in
+  let up := {| e_name := bs "../evil.txt"; e_kind := KFile; e_perm := 420; e_data := bs "evil" |} in
+  fst (unzip_entries_memo c f (bs "/sb/dest") [] [root; up]) = XOk /\
+  lookup (snd (unzip_entries_memo c f (bs "/sb/dest") [] [root; up])) [bs "sb"; bs "evil.txt"]
+    = Some (NFile 420 (bs "evil")) /\
+  fst (unzip_entries_memo c f (bs "/sb/dest") [] [up]) = XRefused /\
+  unzip_entries c f (bs "/sb/dest") [root; up] = (XRefused, f) /\
+  unzip_entries c f (bs "/sb/dest") [up] = (XRefused, f).
 Proof. vm_compute. repeat split. Qed.
 
 Definition ex_tree : tree :=
